@@ -220,7 +220,10 @@ def run(rep, facts, tier):
     rep.extra['registry_reachable_fns'] = len([r for r in reach if r in fx.fns])
 
     n_sw = 0
-    for fn in sorted(reach):
+    # the host API looks at values too: its type tests and accessors are words by another door
+    capi = {fn for fn in fx.fns if fn.startswith('c_api::')}
+    rep.floor('C13.R1 functions of the C API', len(capi), 10)
+    for fn in sorted(set(reach) | capi):
         f = fx.fns.get(fn)
         if f is None:
             continue
@@ -296,6 +299,22 @@ def run(rep, facts, tier):
                             'the only constructor of the wrapper' if ok_site else '%s constructs WithTag directly' % fn, fn, st.get('at'),
                             nontrivial=False)
     rep.floor('C13 WithTag aggregates', n_agg, 1)
+    # "no tags" has one representation.  A wrapper with an empty map reads as { } where the plain value reads as nil (`tags nil?`,
+    # `let ^ { }`): the function that takes a tag away wraps only what still has one
+    from ..pathq import edge_guards
+    rt = fx.need('cell::Cell::remove_tag')
+    wraps = [(bb, t) for bb, t in rt.calls() if callee_of(t) == 'cell::Cell::with_tags']
+    bad_w = []
+    for bb, t in wraps:
+        e = rt.expr_of_operand(t['args'][1])
+        fresh = any(isinstance(x, tuple) and x[0] == 'call' and x[1].endswith('::new') and not x[2] for x in expr_walk(e))
+        nonempty = any(isinstance(g, tuple) and g[0] == 'call' and g[1].endswith('::is_empty') and not side for (_, g, side) in edge_guards(rt, bb))
+        if fresh or not nonempty:
+            bad_w.append('wraps a new empty map' if fresh else 'wraps what is left without testing that anything is left')
+    rep.add('C13.R2', 'C13.R2:cell::Cell::remove_tag:no-empty-wrapper', not bad_w,
+            'remove_tag wraps the remaining tags only when some remain (%d wrapping site(s))' % len(wraps) if not bad_w else
+            'remove_tag %s: `1 "k" remove-tag tags` gives { } where `1 tags` gives nil, and a value that lost its last tag still counts as tagged'
+            % '; '.join(sorted(set(bad_w))), rt.name, rt.j['span'])
 
     # R3: producer call sites
     n_p = 0
